@@ -44,3 +44,13 @@ def _expand_slice_subrange(case, clause):
     rb, re_, cb, ce = map(int, m.groups())
     l1, l2 = len(case["s1"]), len(case["s2"])
     return not (rb == 0 and cb == 0 and re_ == l1 + 1 and ce == l2 + 1)
+
+
+@predicate("psi_end_backtrack")
+def _psi_end_backtrack(case, clause):
+    """Backtracking from a matrix whose relaxed end is marked with -1: the first move out of a marked
+    cell is chosen by predecessor cost instead of following the marks, so the path may miss the chosen
+    end point (fails only the end / cost / empty clause; steps, band, range and start are still checked)."""
+    if not (case["psi"][1] > 0 or case["psi"][3] > 0):
+        return False
+    return bool(re.search(r":(end|cost|empty)$", clause))
